@@ -4,6 +4,6 @@ cd /verif
 for d in seeded/*/; do
   n=$(basename $d)
   ids=$(python3 -c "import json; print(' '.join(json.load(open('$d/meta.json'))['checks_that_report_it']))")
-  r=$(tools/try_seed.sh $d/patch.diff $ids 2>&1 | grep -E "^FIRED|does not apply|dirty" | head -1)
+  r=$(tools/try_seed.sh /verif/$d/patch.diff $ids 2>&1 | grep -E "^FIRED|does not apply|dirty" | head -1)
   echo "$n [$ids] => $r"
 done
